@@ -1062,6 +1062,11 @@ def _decorate_new_with_invariants(new_func: CallableT) -> CallableT:
         else:
             instance = new_func(*args, **kwargs)
 
+        if len(args) == 0 or not isinstance(instance, args[0]):
+            # __new__ returned an object of another class (*e.g.*, a factory or a sentinel). Python does not
+            # initialize such an object either, and it is not ours to check.
+            return instance
+
         if instance.__class__.__init__ is not object.__init__:
             # The object is complete only once __init__ has run; the wrapper around __init__ checks the invariants.
             return instance
